@@ -42,6 +42,11 @@ type WriteCase struct {
 	// InitElsewhere: `spok --init --spokfile ../../spokfile` from nested/dir: --init creates a spokfile
 	// in the working directory or refuses; the spokfile the other flag points at is none of its business
 	InitElsewhere bool `json:"init_elsewhere,omitempty"`
+	// ProjDir names the project directory ("" = proj)
+	ProjDir string `json:"proj_dir,omitempty"`
+	// ROGitIgnore: the existing .gitignore files cannot be written by the user running spok: --init
+	// may fail to append, it may not damage or remove them
+	ROGitIgnore bool `json:"ro_gitignore,omitempty"`
 }
 
 var writeTreePool = []string{"main.go", "pkg/a.go", "pkg/sub/b.go", "docs/readme.md", "nested/dir/x.txt", "Makefile", "data/", "nested/.hidden", "spokfile.tmp", "spokfile.bak", ".spokfile.swp", "spokfile~"}
@@ -134,6 +139,8 @@ func genWrite(t *rapid.T) WriteCase {
 		}
 		c.Prior, c.EditDep, c.Nested = 0, false, true
 	}
+	c.ProjDir = genProjDir(t)
+	c.ROGitIgnore = c.GitIgnore != nil && rapid.IntRange(0, 3).Draw(t, "ro_gitignore") == 0
 	nt := rapid.IntRange(0, 2).Draw(t, "ntasks")
 	for i := 0; i < nt; i++ {
 		pool := append([]string{"nosuchtask"}, taskNames...)
@@ -145,7 +152,7 @@ func genWrite(t *rapid.T) WriteCase {
 func hasFlag(flags []string, f string) bool { return contains(flags, f) }
 
 func execWrite(s *ev.Shard, b *sandbox.Box, c WriteCase) *rp.Fail {
-	if err := b.Reset(); err != nil {
+	if err := b.ResetAs(c.ProjDir); err != nil {
 		return &rp.Fail{Sig: "harness", Msg: err.Error()}
 	}
 	files := map[string]string{"nested/dir/": ""}
@@ -190,12 +197,17 @@ func execWrite(s *ev.Shard, b *sandbox.Box, c WriteCase) *rp.Fail {
 		}
 		_ = os.Lchown(lp, 65534, 65534)
 	}
+	if c.ROGitIgnore {
+		_ = os.Chmod(filepath.Join(b.Proj, ".gitignore"), 0o444)
+		_ = os.Chmod(filepath.Join(b.Proj, "nested", "dir", ".gitignore"), 0o444)
+	}
 	if err := writeProject(b, b.Home, map[string]string{"beside.txt": "beside", "elsewhere/": "", "elsewhere/other.txt": "o"}); err != nil {
 		return &rp.Fail{Sig: "harness", Msg: err.Error()}
 	}
-	cwd, cwdRel := b.Proj, "proj"
+	pr := filepath.Base(b.Proj) // the project directory's name
+	cwd, cwdRel := b.Proj, pr
 	if c.Nested {
-		cwd, cwdRel = filepath.Join(b.Proj, "nested", "dir"), "proj/nested/dir"
+		cwd, cwdRel = filepath.Join(b.Proj, "nested", "dir"), pr+"/nested/dir"
 	}
 	size := len(c.Flags) + len(c.Tasks) + len(c.Src)/20 + len(c.Tree)/3
 	args := append(append([]string(nil), c.Flags...), c.Tasks...)
@@ -245,7 +257,7 @@ func execWrite(s *ev.Shard, b *sandbox.Box, c WriteCase) *rp.Fail {
 
 	// what may change
 	allowed := map[string]string{} // path -> what is allowed
-	spokRel := "proj/spokfile"
+	spokRel := pr + "/spokfile"
 	switch {
 	case hasFlag(c.Flags, "--init"):
 		target := cwdRel + "/spokfile"
@@ -262,7 +274,7 @@ func execWrite(s *ev.Shard, b *sandbox.Box, c WriteCase) *rp.Fail {
 	case hasFlag(c.Flags, "--fmt") && c.Class == "valid":
 		if c.SpokLink {
 			// the text lives behind the link: the link itself stays what it is
-			spokRel = "proj/conf/spokfile"
+			spokRel = pr + "/conf/spokfile"
 		}
 		allowed[spokRel] = "modified"
 	}
@@ -276,7 +288,7 @@ func execWrite(s *ev.Shard, b *sandbox.Box, c WriteCase) *rp.Fail {
 		if badName {
 			return &rp.Fail{Sig: "wrote-outside-permitted-set", Size: size, Msg: fmt.Sprintf("%s: the spokfile name was refused, yet %s was %s", desc, ch.Path, ch.What)}
 		}
-		if c.Class != "absent" && !hasFlag(c.Flags, "--init") && sandbox.Under(ch.Path, "proj/.spok") {
+		if c.Class != "absent" && !hasFlag(c.Flags, "--init") && sandbox.Under(ch.Path, pr+"/.spok") {
 			continue // the cache directory next to the spokfile
 		}
 		if what, ok := allowed[ch.Path]; ok && what == ch.What {
@@ -284,7 +296,7 @@ func execWrite(s *ev.Shard, b *sandbox.Box, c WriteCase) *rp.Fail {
 		}
 		sig := "wrote-outside-permitted-set"
 		switch {
-		case ch.Path == spokRel || ch.Path == "proj/spokfile" || ch.Path == "proj/conf/spokfile":
+		case ch.Path == spokRel || ch.Path == pr+"/spokfile" || ch.Path == pr+"/conf/spokfile":
 			sig = "spokfile-touched"
 		case strings.HasSuffix(ch.Path, ".gitignore"):
 			sig = "gitignore-touched"
